@@ -66,6 +66,11 @@ let () =
         let nc = next_int () in
         let cs = times nc parse_change in
         let verdict l = match replay l c0 with Some _ -> "ok" | None -> "fail" in
+        if _mode = "raw" then
+          (match sortChanges cs with
+           | None -> Printf.printf "%s raw out=outoffuel\n" id
+           | Some l -> Printf.printf "%s raw out=%s\n" id (show_out l))
+        else
         (match plan cs with
          | POut ->
            Stdlib.List.iter (fun k -> Printf.printf "%s %s out=outoffuel\n" id k) ["sort"; "mysql"; "pg"]
